@@ -1,5 +1,6 @@
 import Driver.Loop
 import Driver.RunProgramsOp
+import Driver.TxSigOp
 import ElaVerif.Model.WalletCodec
 /-
   Line-protocol driver for C37: amount and address codecs (fixed code), the wallet's
@@ -53,6 +54,7 @@ def stepC37 : List String → String
   | ["wks", priv, _lock] => match hexBytes? priv with
       | some k => if k.length ≤ 32 then toHex (storeKey false k) ++ " ok" else "bad-op"
       | none => "bad-op"
+  | "wtx" :: ts => Driver.TxSigOp.evalTxsig ts
   | "wrun" :: ts => Driver.RunOp.evalRun .all ts
   | "wtamper" :: ts => Driver.RunOp.evalRun .all ts
   | _ => "bad-op"
